@@ -128,7 +128,9 @@ def build(r):
         s += ' WHERE ' + ' AND '.join(c['text'] for c in q.conj)
     q.using = {}
     if r.random() < 0.4:
-        opts = r.sample([('a', 7001), ('m.b', 7002), ('Mode', 7003), ('t.c', 7004), ('M.Key', 7005), ('deep', 7006)], r.randint(1, 3))
+        # (names that begin with the characters of the alias prefix: cutting the prefix must cut exactly the prefix)
+        opts = r.sample([('a', 7001), ('m.b', 7002), ('Mode', 7003), ('t.c', 7004), ('M.Key', 7005), ('deep', 7006), ('m.max_tokens', 7007),
+                         ('m.m', 7008), ('m.mm_2', 7009), ('max_m', 7010)], r.randint(1, 3))
         s += ' USING ' + ', '.join(f'{k} = {v}' for k, v in opts)
         for k, v in opts:
             if '.' in k:
